@@ -1233,6 +1233,8 @@ def check_aux(run, lst, ob):
                 elif e.attributes:
                     viol.append({"key": "aux:expr-attributes:orig",
                                  "msg": str(e.attributes)})
+                if t.patch is None and case.get("no_expr_sizes_table"):
+                    want_size = None    # the input recorded no sizes
                 gsz = size_by_iv.get(id(bi), {}).get(off)
                 if gsz != want_size:
                     viol.append({
